@@ -13,7 +13,9 @@ request's kid / Partial IV / nonce (D14.15).
 SPEC DECISION
  D14.19 the Security Context associated with a token is the context the LATEST verified request with that token
         was verified with (the one it names, D14.18) — not the context of whatever request the endpoint verified
-        last.  Everything else is D14.15 / D14.16 (latest request, consumed by the response unless Observe 0).
+        last.  Everything else is D14.15 / D14.16 / D14.5 (latest VERIFIED request — a request that is rejected
+        binds nothing and re-binds nothing —, consumed by the response unless marked `observe`, own Partial IV for
+        a marked binding).
 -/
 namespace Coap.Spec.Oscore
 
@@ -23,6 +25,7 @@ structure CEntry where
   b : Binding
   keep : Bool
   ctx : Ctx
+  observe : Bool        -- D14.5: the request carried an Observe option
   deriving Repr, DecidableEq
 
 abbrev CStore := List CEntry
@@ -31,37 +34,48 @@ def cFind (st : CStore) (t : Bytes) : Option CEntry := List.find? (fun e => e.to
 def cDel (st : CStore) (t : Bytes) : CStore := List.filter (fun e => e.token ≠ t) st
 def cSet (st : CStore) (e : CEntry) : CStore := e :: cDel st e.token
 
+/-- D14.16, server: the `observe` mark of the binding a verified request makes (`sObs` for this store) -/
+def cObs (st : CStore) (t : Bytes) (os : List (Nat × Bytes)) : Bool :=
+  hasObserve os || (match cFind st t with | some e => e.observe | none => false)
+
 /-- §8.2 at an endpoint that holds the contexts `cs` + D14.19: the token is bound to the context the request names -/
 def serverRecvAny (cipher : Bytes → Bytes → Bytes) (cs : List Ctx) (st : CStore) (pm : Msg) : Verdict × CStore :=
   match unprotectRequestAny cipher cs pm, selectFor cs pm with
-  | .ok m b, some c => (.ok m b, cSet st ⟨pm.token, b, isRegistration m.opts, c⟩)
+  | .ok m b, some c => (.ok m b, cSet st ⟨pm.token, b, cObs st pm.token m.opts, c, cObs st pm.token m.opts⟩)
   | v, _ => (v, st)
 
-/-- §8.3 + D14.19: the response is protected with the context associated with ITS token -/
-def serverSendAny (cipher : Bytes → Bytes → Bytes) (st : CStore) (m : Msg) (seq : Option Nat) (sepMid : Option Nat) :
+/-- §8.3 + D14.19 + D14.5: the response is protected with the context associated with ITS token; `seq` is the Sender
+Sequence Number of THAT context, used iff the response carries its own Partial IV (`ask`: the caller wants one) -/
+def serverSendAny (cipher : Bytes → Bytes → Bytes) (st : CStore) (m : Msg) (ask : Bool) (seq : Nat) (sepMid : Option Nat) :
     Option (Msg × CStore) :=
   match cFind st m.token with
   | none => none
   | some e =>
-    match protectResponse cipher e.ctx e.b m seq sepMid with
+    match protectResponseFor cipher e.ctx e.b e.observe m ask seq sepMid with
     | none => none
     | some r => some (r, if e.keep then st else cDel st m.token)
+
+/-- D14.5 at this server: does the response `m` take a Sender Sequence Number of the context bound to its token? -/
+def serverOwnPivAny (st : CStore) (m : Msg) (ask : Bool) : Bool :=
+  match cFind st m.token with
+  | none => false
+  | some e => ownPiv ask e.observe m
 
 /-- one event at the server: a datagram with a request code arrives (genuine, for any of its contexts or for none,
 forged), or it protects a response -/
 inductive XStep where
   | recv (pm : Msg)
-  | send (m : Msg) (seq : Option Nat) (sepMid : Option Nat)
+  | send (m : Msg) (ask : Bool) (seq : Nat) (sepMid : Option Nat)
   deriving Repr, DecidableEq
 
 def XStep.token : XStep → Bytes
   | .recv pm => pm.token
-  | .send m _ _ => m.token
+  | .send m _ _ _ => m.token
 
 def serverStepAny (cipher : Bytes → Bytes → Bytes) (cs : List Ctx) (st : CStore) : XStep → CStore
   | .recv pm => (serverRecvAny cipher cs st pm).2
-  | .send m seq sepMid =>
-    match serverSendAny cipher st m seq sepMid with
+  | .send m ask seq sepMid =>
+    match serverSendAny cipher st m ask seq sepMid with
     | some (_, st') => st'
     | none => st
 
